@@ -162,7 +162,7 @@ static void ref_wc2mb(const char *pfx, int restart, size_t n) {
     snprintf(k, sizeof k, "%sst", pfx); pstate(k, &st[0]);
 }
 
-int main(void) {
+int main(int argc, char **argv) {
     static char line[MAXC * 20 + 512];
     char fn[64], b[64], curloc[8] = "";
     arena = mmap(NULL, ARENA + 4096, PROT_READ | PROT_WRITE, MAP_PRIVATE | MAP_ANONYMOUS, -1, 0);
@@ -178,6 +178,22 @@ int main(void) {
     set_str_constraint_handler_s(handler);
     set_mem_constraint_handler_s(handler);
     setvbuf(stdout, NULL, _IOFBF, 1 << 16);
+
+    /* prime=C | prime=U: before the first op every entry point is called once, successfully, in that locale.  Whatever a
+       function remembers from its first call (a cached MB_CUR_MAX, a lazily built table) is then remembered from THAT locale;
+       the runner compares the observations of a primed and an unprimed process line by line. */
+    if (argc > 1 && !strncmp(argv[1], "prime=", 6)) {
+        static char pb[16]; static wchar_t pw[16];
+        size_t rv; int rvi; const char *sp = "a"; const wchar_t *wp = L"a"; mbstate_t ps;
+        if (!setlocale(LC_ALL, argv[1][6] == 'U' ? "C.UTF-8" : "C")) return 3;
+        memset(&ps, 0, sizeof ps);
+        _mbstowcs_s_chk(&rv, pw, 8, "a", 1, (size_t)-1);
+        _mbsrtowcs_s_chk(&rv, pw, 8, &sp, 1, &ps, (size_t)-1);
+        _wcstombs_s_chk(&rv, pb, 8, L"a", 1, (size_t)-1);
+        _wcsrtombs_s_chk(&rv, pb, 8, &wp, 1, &ps, (size_t)-1);
+        _wcrtomb_s_chk(&rv, pb, 8, L'a', &ps, (size_t)-1);
+        _wctomb_s_chk(&rvi, pb, 8, L'a', (size_t)-1);
+    }
 
     while (fgets(line, sizeof line, stdin)) {
         if (!tok(line, "conv", fn, sizeof fn)) continue;
